@@ -154,6 +154,13 @@ func (r *rateLimiter) UpdateRateLimitConditionStatus(upstream string, condition 
 	mutex.Lock()
 	defer mutex.Unlock()
 
+	// read the upstream state again under the lock: a report or a limit change that was
+	// processed in the meantime may have replaced it
+	upstreamCondition, err = limitStore.Get(condition.Spec.UpstreamCluster, upstreamStateConditionName(condition.Spec.UpstreamCluster))
+	if err != nil {
+		return nil, err
+	}
+
 	oldCondition, err := limitStore.Get(condition.Spec.UpstreamCluster, condition.Name)
 	if errors.IsNotFound(err) {
 		oldCondition = &proxyv1alpha1.RateLimitCondition{
